@@ -616,6 +616,12 @@ impl Context {
 
     /// Set the context's target.
     pub fn set_target(&mut self, target: TargetAddress) -> &mut Self {
+        // ::ffff:a.b.c.d is the IPv4 host a.b.c.d: that is what will be contacted, so that is what the
+        // rules, the record and the next hop have to see (as for client addresses)
+        let target = match target {
+            TargetAddress::SocketAddr(a) => TargetAddress::SocketAddr(crate::common::try_map_v4_addr(a)),
+            other => other,
+        };
         Arc::make_mut(&mut self.props).target = target;
         self
     }
